@@ -273,9 +273,83 @@ class C09(univ.UnivCheck):
                                 "true_on_points": bin(exp).count("1")})
         return out, c, smp
 
+    # ---- evaluation-history independence ---------------------------------------------------
+    def history_pass(self):
+        """Evaluate every atom on every point in one process, forwards and then backwards.
+
+        A query's value must depend on (query, point) only; a value that changes with what was evaluated
+        before (shared mutable state between query objects) shows up here as a mismatch with the reference
+        in at least one of the two orders.  Deterministic, so its findings replay (recheck re-runs it).
+        """
+        self.worker_init()
+        atoms = self.families[0]["S"][: self.natoms]
+        out = []
+        for order, seq in (("forward", atoms), ("backward", list(reversed(atoms)))):
+            for a in seq:
+                q = qast.build(a)
+                for i, rp in enumerate(self.U):
+                    exp = qast.ref_eval(a, rp)
+                    try:
+                        r = q(self.points[i])
+                    except Exception as e:  # noqa
+                        r = type(e).__name__
+                    if r is not exp:
+                        out.append(viol("query-meaning", f"C09|depends-on-evaluation-history|shape={qast.shape(a)}", observed=r, expected=exp,
+                                        kind="input", detail=f"order={order}") | {"input": (a, rp)})
+                        break
+        return out
+
+    def run(self, log=print):
+        import multiprocessing
+        import time
+
+        t0 = time.time()
+        with multiprocessing.get_context("fork").Pool(1) as pool:
+            hv = pool.apply(self.history_pass)
+        # keep only what a single isolated evaluation does NOT show (those are reported by the exhaustive pass)
+        hist_only = []
+        with multiprocessing.get_context("fork").Pool(1) as pool:
+            for v in hv:
+                if not pool.apply(self.recheck_single, (v["input"],)):
+                    hist_only.append(v)
+        if hist_only:
+            import collections
+
+            vc = collections.Counter(v["signature"] for v in hist_only)
+            first = {}
+            for v in hist_only:
+                v.setdefault("property", self.prop)
+                first.setdefault(v["signature"], v)
+            cov = {"states": self.natoms, "transitions": 2 * self.natoms, "traces_validated_against_impl": 2 * self.natoms * len(self.U),
+                   "samples": [{"history_pass": "all atoms forwards then backwards in one process"}], "exhaustive": True,
+                   "rule": self.rule(), "explanation": "query values depend on the evaluation history; the sharded exhaustive pass was skipped"}
+            from .base import finalize
+
+            return finalize(self, list(first.values()), vc, cov, t0, log)
+        return super().run(log)
+
+    def recheck_single(self, inp):
+        """True iff one isolated evaluation of (term, point) already disagrees with the reference."""
+        self.worker_init()
+        return bool(self._single(inp[0], inp[1], None))
+
+    def _single(self, ast, rp, sig):
+        from tinyflux import Point
+
+        p = Point()
+        p.time, p.measurement, p.tags, p.fields = rp[0], rp[1], dict(rp[2]), dict(rp[3])
+        exp = qast.ref_eval(ast, rp)
+        try:
+            r = qast.build(ast)(p)
+        except Exception as e:  # noqa
+            r = type(e).__name__
+        return [viol("query-meaning", sig or "C09|single", observed=r, expected=exp)] if r is not exp else []
+
     def recheck(self, rec):
         from tinyflux import Point
 
+        if "depends-on-evaluation-history" in rec["signature"]:
+            return [v for v in self.history_pass() if v["signature"] == rec["signature"]][:1]
         ast, rp = rec["input"]
         p = Point()
         p.time, p.measurement, p.tags, p.fields = rp[0], rp[1], dict(rp[2]), dict(rp[3])
